@@ -109,4 +109,71 @@ def runAsync (r : Option Bool) (f : Flags) (blocking : Bool) (nw : Nat) (choices
       | .error e => .error e)
   else none
 
+/-! ## the end-marker protocol when reading a file can fail
+
+`TreeAnalysisWorker.run` catches an exception raised while a file is read, posts it on the results queue *instead of* its
+array and leaves the loop at once — without waiting for its end-of-work marker.  The parent's collation loop takes one
+result per worker in arrival order and re-raises the first exception it meets. -/
+
+/-- worker `i` performs its pending operation (blocking `get`); `fails taken k`: reading file `k` raises in a worker that has
+    read the files `taken` before -/
+def stepWF (fails : List Nat → Nat → Bool) (s : PState) (i : Nat) : PState :=
+  match s.ws[i]? with
+  | none => s
+  | some w =>
+    match w.phase, s.delivered with
+    | .asking, .file k :: d =>
+      if fails w.taken k then { s with delivered := d, ws := s.ws.set i { phase := .done, taken := w.taken ++ [k] } }
+      else stepW true s i
+    | _, _ => stepW true s i
+
+def applyActF (fails : List Nat → Nat → Bool) (s : PState) : Act → PState
+  | .deliver => applyAct true s .deliver
+  | .step i => stepWF fails s i
+
+def runProtoF (fails : List Nat → Nat → Bool) : Nat → List Nat → PState → PState
+  | 0, _, s => s
+  | fuel + 1, cs, s =>
+    match enabledActs true s with
+    | [] => s
+    | a :: as =>
+      let act := ((a :: as)[(cs.head?.getD 0) % (as.length + 1)]?).getD a
+      runProtoF fails fuel cs.tail (applyActF fails s act)
+
+def finalPF (fails : List Nat → Nat → Bool) (nw nfiles : Nat) (choices : List Nat) : PState :=
+  runProtoF fails (fuelOf nw nfiles) choices (initP true nw nfiles)
+
+/-- does reading file `k` raise in a worker (declared rooting `r`, settings `f`) that has read the files `taken`? -/
+def failsOf (r : Option Bool) (f : Flags) (files : List (List TRec)) (taken : List Nat) (k : Nat) : Bool :=
+  match addAll (TA.new r f) ((taken ++ [k]).flatMap (fun j => files[j]?.getD [])) with
+  | .ok _ => false
+  | .error _ => true
+
+/-- the collation loop of `parallel_analyze_trees` over what the workers posted: an exception is re-raised as soon as it is
+    taken from the results queue; arrays are merged with `update` -/
+def collateX (master : TA) : List (Except Err TA) → Except Err TA
+  | [] => .ok master
+  | .error e :: _ => .error e
+  | .ok w :: rs => match update master w with
+    | .ok m => collateX m rs
+    | .error e => .error e
+
+/-- what worker `i` posts: its array, or the exception of the read that failed (`addAll` stops at the first rejected tree,
+    which lies in the last file taken, the earlier files having been read without error) -/
+def postedBy (r : Option Bool) (f : Flags) (fin : PState) (files : List (List TRec)) (i : Nat) : Except Err TA :=
+  addAll (TA.new r f) (treesOf fin files i)
+
+/-- `parallel_analyze_trees` with failing reads: `none` = the parent waits for ever -/
+def runAsyncF (r : Option Bool) (f : Flags) (nw : Nat) (choices arrival : List Nat) (files : List (List TRec)) :
+    Option (Except Err TA) :=
+  let fin := finalPF (failsOf r f files) nw files.length choices
+  if fin.ws.all (fun w => w.phase == .done) then
+    some (collateX (TA.new r f) (arrival.map fun i => postedBy r f fin files i))
+  else none
+
+/-- the same with a burn-in applied by every worker to every file it reads -/
+def runAsyncFB (burnin : Nat) (r : Option Bool) (f : Flags) (nw : Nat) (choices arrival : List Nat) (files : List (List TRec)) :
+    Option (Except Err TA) :=
+  runAsyncF r f nw choices arrival (workerFiles burnin files)
+
 end DendroModel.C06
